@@ -44,6 +44,7 @@ class CFG:
         self.nodes: list[Node] = []
         self.succ: dict[int, set[int]] = {}
         self.pred: dict[int, set[int]] = {}
+        self.exc_succ: dict[int, set[int]] = {}  # subset of succ: exceptional edges
         self.entry = self._new("entry")
         self.exit = self._new("exit")
         self.raise_exit = self._new("raise")
@@ -64,11 +65,14 @@ class CFG:
         self.nodes.append(n)
         self.succ[n.id] = set()
         self.pred[n.id] = set()
+        self.exc_succ[n.id] = set()
         return n.id
 
-    def _edge(self, a: int, b: int) -> None:
+    def _edge(self, a: int, b: int, exc: bool = False) -> None:
         self.succ[a].add(b)
         self.pred[b].add(a)
+        if exc:
+            self.exc_succ[a].add(b)
 
     def _exc_target(self) -> list[int]:
         if self._handlers:
@@ -78,7 +82,7 @@ class CFG:
     def _may_raise(self, nid: int) -> None:
         if self.exc_edges:
             for h in self._exc_target():
-                self._edge(nid, h)
+                self._edge(nid, h, exc=True)
 
     def _block(self, body: Iterable[ast.stmt], preds: set[int]) -> set[int]:
         cur = set(preds)
@@ -160,7 +164,7 @@ class CFG:
             n = self._new("stmt", stmt=st)
             self._link(preds, n)
             for h in self._exc_target():
-                self._edge(n, h)
+                self._edge(n, h, exc=True)
             return set()
         if isinstance(st, ast.Break):
             n = self._new("stmt", stmt=st)
@@ -183,7 +187,7 @@ class CFG:
         self._link(preds, n)
         if isinstance(st, ast.Assert):
             for h in self._exc_target():
-                self._edge(n, h)
+                self._edge(n, h, exc=True)
         elif not isinstance(st, (ast.FunctionDef, ast.AsyncFunctionDef, ast.ClassDef, ast.Pass,
                                  ast.Import, ast.ImportFrom, ast.Global, ast.Nonlocal)):
             self._may_raise(n)
@@ -252,7 +256,7 @@ class CFG:
             e_out = self._block(st.finalbody, {exc_final_entry})
             for e in e_out:
                 for tgt in self._exc_target():
-                    self._edge(e, tgt)
+                    self._edge(e, tgt, exc=True)
             return n_out
         return else_out | h_out
 
@@ -378,6 +382,16 @@ class CFG:
                 t = self.nodes[node.test]
                 if t.kind == "test":
                     out.append((t.expr, bool(node.polarity)))
+        return out
+
+    def normal_succ(self, n: int) -> set[int]:
+        return self.succ[n] - self.exc_succ[n]
+
+    def reachable_after_failure_of(self, n: int, avoid: Iterable[int] = ()) -> set[int]:
+        """Nodes reachable when statement n raises (following its exceptional edges only)."""
+        out: set[int] = set()
+        for h in self.exc_succ[n]:
+            out |= self.reachable_from(h, avoid=avoid)
         return out
 
     def all_paths_pass_through(self, start: int, target: int, via: Iterable[int]) -> bool:
